@@ -44,6 +44,7 @@ type Gen struct {
 	NoPosts   bool
 	Populated bool // C13: fully populated values only
 	NoExtra   bool // no destination fields outside the schema
+	FmtModes  bool // vary the formatter level (execution formatter, i18n language)
 }
 
 func (g *Gen) id() int { g.nextID++; return g.nextID }
@@ -564,6 +565,9 @@ func (g *Gen) Case(id int) *Case {
 	r := g.R
 	c := &Case{ID: id}
 	c.Schema = g.Node(0)
+	if g.FmtModes {
+		c.Fmt = rng.Pick(r, []string{"", "", "exec:en", "exec:es", "i18n:-", "i18n:es", "i18n:en", "i18n:fr"})
+	}
 	if r.P(45, 100) {
 		c.Mode = "v"
 		c.Dest = g.DestValue(c.Schema, 25)
